@@ -11,13 +11,6 @@ HANG = ['deadlock', 'cancel_hangs']
 C14K = ['node_start_twice_without_complete', 'node_complete_without_start', 'body_without_node_start', 'missing_node_complete',
         'complete_reports_error_for_value', 'complete_reports_success_for_failure', 'complete_reports_other_exception']
 F = [
- dict(id='KF-DUP', family='dup_param', properties=['C15', 'C03', 'C01', 'C07', 'C08', 'C11', 'C12'],
-      kinds=['parallel_dependencies_merged', 'parallel_dependencies_merged_permuted', 'wrong_arg_names', 'unexpected_args', 'wrong_case_routed',
-             'wrong_value', 'missing_execution', 'never_node_ran', 'bad_arg_exception_instance', 'unexpected_default_call',
-             'missing_default_call', 'value_instead_of_error', 'error_instead_of_value', 'wrong_error'],
-      mechanism='two parameters of one node bound to the same upstream node collapse into one graph edge (nx.DiGraph holds one edge '
-                'A->B; the second kwarg_name overwrites the first, builder.py _add_node_pair_to_dag), so one parameter is silently not supplied',
-      witness={'C15': 'witnesses/KF-DUP-build.json', 'C03': 'witnesses/KF-DUP.json'}),
  dict(id='KF-REC2', family='rec_two_scopes', properties=RUNP + ['C19'], kinds=GEN + HANG + C14K + ['wrong_case_routed'],
       mechanism='a recurrent destination that is reached from two sub-pipeline scopes (main pipeline and a switch case / one-of candidate / '
                 'second execution of a switch): while the subgraph re-iterates, the second scope takes the duplicate-request path of '
@@ -37,7 +30,7 @@ F = [
  dict(id='KF-CANDSHARED', family='candidate_shared', properties=RUNP + ['C19'],
       kinds=['deadlock', 'cancel_hangs', 'bad_arg_exception_instance', 'never_node_ran', 'value_instead_of_error', 'wrong_error',
              'unexpected_args', 'missing_execution', 'wrong_value', 'schedule_dependent_outcome', 'exception_saved',
-             'none_placeholder_arg', 'error_instead_of_value'],
+             'none_placeholder_arg', 'error_instead_of_value', 'unexpected_default_call', 'missing_default_call'],
       mechanism='a one-of candidate that is also consumed directly by another node: candidates are filtered out of every sub-pipeline except their '
                 'own one-of (manager.py _filter_node), so the direct consumer never becomes ready and the run hangs; when the candidate is reached '
                 'through its one-of first, its contained failure is delivered to the direct consumer',
@@ -62,7 +55,8 @@ F = [
 for f in F:
     f['status'] = 'open'
 FIXED = [
- 'fixed: property=C19 69f1c32 a node result was published before its artifact save finished: with a slow store the save was cancelled at run end and the artifact lost (witnesses/D32.json)',
+ 'fixed: property=C15 c19c0ea two parameters of one node bound to the same upstream node (or the same named switch) collapsed into one graph edge and only the last parameter was supplied (witnesses/D33.json, witnesses/D33-build.json); also C03',
+ 'fixed: property=C19 c62de43 a node result was published before its artifact save finished: with a slow store the save was cancelled at run end and the artifact lost (witnesses/D32.json)',
  'fixed: property=C17 b11c0fc a build_node() derivative tagged for the process pool killed the pool worker (method pickled under the wrong name) (witnesses/D31.json)',
  'fixed: property=C02 7b7a1b7 hang when a node needed outside a one-of had failed inside a one-of branch and the outside sub-pipeline had no task of its own for it (witnesses/D30.json); also C05 C09',
  'fixed: property=C10 17020fc the early exit of a failed one-of candidate cancelled node executions other sub-pipelines were waiting for: None delivered as a value (witnesses/D28.json); also C03 C05',
